@@ -28,8 +28,9 @@ def run(tier, seed, replay_rows=None):
     q = tier == "quick"
     cfgs = [("MC_Lifecycle_1x1.cfg", "Gen_Lifecycle_1x1.cfg", 1, 1, None, 1),
             # three iterations on the same worker: simulated in the quick tier, exhaustive (311k states) in the thorough tier
-            ((None, "Gen_Lifecycle_1x3.cfg", 1, 3, 2500, 1) if q else ("MC_Lifecycle_1x3.cfg", "Gen_Lifecycle_1x3.cfg", 1, 3, None, 1)),
-            (None, "Gen_Lifecycle_2x3.cfg", 2, 3, 300 if q else 4000, 1)]
+            ((None, "Gen_Lifecycle_1x3.cfg", 1, 3, 2500, 1) if q else ("MC_Lifecycle_1x3.cfg", "Gen_Lifecycle_1x3.cfg", 1, 3, None, 1))]
+    # (behaviours of COMBINED scenarios are C20's: a change that only affects how components are invoked must not be
+    # reported here)
     lifecycle.run_property(ck, cfgs, normalize, concern, replay_rows=replay_rows)
     ck.exhaustive = not q
     if replay_rows is None:
